@@ -82,9 +82,9 @@ theorem processPadding_is_axis_map {α : Type} (c : Cfg α) (ind : A3 Nat) (n : 
     selected rule of each face (`ext1`: `extSym`/`extEdge`/`extWrap`/constant), with the value overrides of
     `override_values` applied on top (in padded coordinates).
     For arbitrary odd kernel shapes and pad widths and mixed modes on the two ends of an axis, under `axisClean`
-    per axis; a 2-D domain takes a 2-D kernel (`h2d`). 3-D statement (2-D is `nelz = 0`, `kz = 1`). -/
+    per axis. 3-D statement; 2-D is `nelz = 0` (one layer of elements), with a 2-D or a 3-D kernel. -/
 theorem filterConv_is_padded_convolution {α : Type} [CommSemiring α] (c : Cfg α) (x : Nat → α)
-    (hk : c.oddKernel) (hx : 1 ≤ c.dom.nelx) (hy : 1 ≤ c.dom.nely) (h2d : c.dom.nelz = 0 → c.kz = 1)
+    (hk : c.oddKernel) (hx : 1 ≤ c.dom.nelx) (hy : 1 ≤ c.dom.nely)
     (hcx : axisClean c.xmin c.xmax c.nx c.px) (hcy : axisClean c.ymin c.ymax c.ny c.py)
     (hcz : axisClean c.zmin c.zmax c.nz c.pz)
     (i j k : Nat) (hi : i < c.nx) (hj : j < c.ny) (hkk : k < c.nz) :
@@ -93,7 +93,7 @@ theorem filterConv_is_padded_convolution {α : Type} [CommSemiring α] (c : Cfg 
         Cfg.applyOverrides c.user
           (fun a b cc => extField c x ((a : Int) - c.px) ((b : Int) - c.py) ((cc : Int) - c.pz))
           (i + (c.kx - 1) - a) (j + (c.ky - 1) - b) (k + (c.kz - 1) - cc) :=
-  resp_eq_padded_convolution_user c x hx hy h2d
+  resp_eq_padded_convolution_user c x hx hy
     (fun q hq => axisSrc_spec _ _ _ _ q (by unfold Cfg.nx sz; omega) hq hcx)
     (fun q hq => axisSrc_spec _ _ _ _ q (by unfold Cfg.ny sz; omega) hq hcy)
     (fun q hq => axisSrc_spec _ _ _ _ q (by unfold Cfg.nz sz; omega) hq hcz)
@@ -101,30 +101,43 @@ theorem filterConv_is_padded_convolution {α : Type} [CommSemiring α] (c : Cfg 
 
 -- non-vacuity: 3×2 domain, 3×3 kernel, modes (symmetric, constant 1, edge, wrap, symmetric, symmetric)
 example : exCfgMixed.oddKernel ∧ 1 ≤ exCfgMixed.dom.nelx ∧ 1 ≤ exCfgMixed.dom.nely ∧
-    (exCfgMixed.dom.nelz = 0 → exCfgMixed.kz = 1) ∧
     axisClean exCfgMixed.xmin exCfgMixed.xmax exCfgMixed.nx exCfgMixed.px ∧
     axisClean exCfgMixed.ymin exCfgMixed.ymax exCfgMixed.ny exCfgMixed.py ∧
     axisClean exCfgMixed.zmin exCfgMixed.zmax exCfgMixed.nz exCfgMixed.pz :=
-  ⟨by decide, by decide, by decide, fun _ => rfl, Or.inl (by decide), Or.inl (by decide), Or.inl (by decide)⟩
+  ⟨by decide, by decide, by decide, Or.inl (by decide), Or.inl (by decide), Or.inl (by decide)⟩
 -- … and a 3-D one: 2×2×2 domain, 3×3×3 kernel, modes (wrap, wrap, edge, symmetric, symmetric, edge)
-example : exCfg3d.oddKernel ∧ 1 ≤ exCfg3d.dom.nelx ∧ 1 ≤ exCfg3d.dom.nely ∧ (exCfg3d.dom.nelz = 0 → exCfg3d.kz = 1) ∧
+example : exCfg3d.oddKernel ∧ 1 ≤ exCfg3d.dom.nelx ∧ 1 ≤ exCfg3d.dom.nely ∧
     axisClean exCfg3d.xmin exCfg3d.xmax exCfg3d.nx exCfg3d.px ∧
     axisClean exCfg3d.ymin exCfg3d.ymax exCfg3d.ny exCfg3d.py ∧
     axisClean exCfg3d.zmin exCfg3d.zmax exCfg3d.nz exCfg3d.pz :=
-  ⟨by decide, by decide, by decide, fun h => absurd h (by decide), Or.inl (by decide), Or.inl (by decide),
-   Or.inl (by decide)⟩
-
--- hypothesis `h2d` cannot be dropped: on a 2-D domain with a 1×1×3 identity kernel and `zmax_bc = 9` the model (as the
--- code: `domain_sizes` uses the raw `nelz = 0`) returns 9 for element 0 where the padded-convolution formula gives x₀ = 3
-example : exCfgQuirk.resp exField 0 = 9 ∧
+  ⟨by decide, by decide, by decide, Or.inl (by decide), Or.inl (by decide), Or.inl (by decide)⟩
+-- … and a 3-D kernel on a 2-D domain (1×1×3 identity kernel, `zmax_bc = 9`; repaired in /repo 6759d43, before
+-- which element 0 came out as 9): the hypotheses hold and both sides evaluate to x₀ = 3
+example : exCfgQuirk.oddKernel ∧ axisClean exCfgQuirk.zmin exCfgQuirk.zmax exCfgQuirk.nz exCfgQuirk.pz ∧
+    exCfgQuirk.resp exField 0 = 3 ∧
     (sum3 exCfgQuirk.kx exCfgQuirk.ky exCfgQuirk.kz fun a b cc => exCfgQuirk.w a b cc *
       extField exCfgQuirk exField ((0 : Int) + exCfgQuirk.px - a) ((0 : Int) + exCfgQuirk.py - b)
         ((0 : Int) + exCfgQuirk.pz - cc)) = 3 := by
-  constructor <;> decide +kernel
+  refine ⟨by decide, Or.inl (by decide), ?_, ?_⟩ <;> decide +kernel
+-- OPEN FINDING `filterconv-wide-pad-mixed-modes` (KNOWN_FINDINGS.txt): `axisClean` cannot be dropped. At the witness
+-- (2×1 domain, field [3, 5], 7×1 kernel = shift by 3, pad 3 > 2 elements, xmin symmetric, xmax = 7) the model (as the
+-- code) returns x₀ = 3 for element 0, whereas the padded-convolution formula (position −3 of the symmetric
+-- extension of the field) gives x₁ = 5; the x axis is not `axisClean`.
+example : ¬ axisClean exCfgFinding.xmin exCfgFinding.xmax exCfgFinding.nx exCfgFinding.px ∧
+    exCfgFinding.resp exField 0 = 3 ∧
+    (sum3 exCfgFinding.kx exCfgFinding.ky exCfgFinding.kz fun a b cc => exCfgFinding.w a b cc *
+      extField exCfgFinding exField ((0 : Int) + exCfgFinding.px - a) ((0 : Int) + exCfgFinding.py - b)
+        ((0 : Int) + exCfgFinding.pz - cc)) = 5 := by
+  refine ⟨?_, ?_, ?_⟩
+  · rintro (h | h)
+    · exact absurd h (by decide)
+    · exact h
+  · decide +kernel
+  · decide +kernel
 
 /-- the same without value overrides, in domain coordinates (`Int`): exactly the formula of the property -/
 theorem filterConv_is_padded_convolution_no_overrides {α : Type} [CommSemiring α] (c : Cfg α) (x : Nat → α)
-    (hk : c.oddKernel) (hx : 1 ≤ c.dom.nelx) (hy : 1 ≤ c.dom.nely) (h2d : c.dom.nelz = 0 → c.kz = 1)
+    (hk : c.oddKernel) (hx : 1 ≤ c.dom.nelx) (hy : 1 ≤ c.dom.nely)
     (huser : c.user = [])
     (hcx : axisClean c.xmin c.xmax c.nx c.px) (hcy : axisClean c.ymin c.ymax c.ny c.py)
     (hcz : axisClean c.zmin c.zmax c.nz c.pz)
@@ -132,7 +145,7 @@ theorem filterConv_is_padded_convolution_no_overrides {α : Type} [CommSemiring 
     c.resp x (c.dom.elemNumber i j k) =
       sum3 c.kx c.ky c.kz fun a b cc => c.w a b cc *
         extField c x ((i : Int) + c.px - a) ((j : Int) + c.py - b) ((k : Int) + c.pz - cc) :=
-  resp_eq_padded_convolution c x hx hy h2d huser
+  resp_eq_padded_convolution c x hx hy huser
     (fun q hq => axisSrc_spec _ _ _ _ q (by unfold Cfg.nx sz; omega) hq hcx)
     (fun q hq => axisSrc_spec _ _ _ _ q (by unfold Cfg.ny sz; omega) hq hcy)
     (fun q hq => axisSrc_spec _ _ _ _ q (by unfold Cfg.nz sz; omega) hq hcz)
